@@ -82,6 +82,11 @@ def singPremise (p : Params Float) (pose : Iso Float) : Bool :=
     sing.all (fun s => angEquiv 1e-4 s.j1 s0.j1 && angEquiv 1e-4 s.j2 s0.j2 && angEquiv 1e-4 s.j3 s0.j3) &&
     sing.all (fun s => 2.0 * (Float.sin (thetaOf p s).j5).abs < 0.9e-6)
 
+/-- premise "the vector is inside the limits", robust against the rounding of a recomputed answer: the vector and
+its neighbours 1e-9 away on either side are accepted (a sliver arc narrower than that never satisfies it) -/
+def robustCompliant (c : Constraints Float) (q : J6 Float) : Bool :=
+  c.compliant q && c.compliant (q.map (· + 1e-9)) && c.compliant (q.map (· - 1e-9))
+
 def rOut {α} (rd : RM α) : RM (Option α) := do
   expect "=>"
   match (← peek?) with
@@ -253,6 +258,29 @@ def opInverse (e : Entry) : RM Res := do
         preds := preds ++ [("C06.j6", sols.all (fun s => s.j6.toBits == j6.toBits || (s.j6.isNaN && j6.isNaN)), "J6 differs from the argument")]
     if e == .invc5 && !hasPara k && !prev.j1.isNaN && prev.j6.isFinite then
       preds := preds ++ [("C06.j6", sols.all (fun s => s.j6.toBits == prev.j6.toBits), s!"J6 differs from previous J6: {sols.map (·.j6)}")]
+    -- the CONSTRAINT_CENTERED sentinel [NaN,0,0,0,0,0]: the caller's J6 is 0, whatever the centre of the J6 limits
+    if e == .invc5 && !hasPara k && prev.j1.isNaN && prev.j6 == 0.0 &&
+        (match k.constraints with | some c => c.centers.j6.abs < 3.0 | none => true) then
+      preds := preds ++ [("C06.j6", sols.all (fun s => s.j6 == 0.0), s!"CONSTRAINT_CENTERED: J6 differs from the caller's 0: {sols.map (·.j6)}")]
+    -- the position-only solvers answer every pose whose wrist centre the arm reaches (oracle: the planar two-link
+    -- reachability condition of the OPW geometry, front-shoulder branch, with a margin)
+    if (e == .inv5 || e == .invc5 || k.core.p.dof == 5) && !hasPara k && k.constraints.isNone && pose.allFinite &&
+        (e == .inv5 || e == .inv || prev.allFinite || prev.j1.isNaN && prev.j6.isFinite) && (e != .inv5 || j6.isFinite) then
+      let p := k.core.p
+      let lp := Kin.localPoseF k pose
+      let zv := lp.q.toMat.mulVec V3.ez
+      let cx := lp.t.x - p.c4 * zv.x
+      let cy := lp.t.y - p.c4 * zv.y
+      let cz := lp.t.z - p.c4 * zv.z
+      let rho2 := cx * cx + cy * cy - p.b * p.b
+      let kappa := Float.sqrt (p.a2 * p.a2 + p.c3 * p.c3)
+      if rho2 ≥ 0.0 && kappa > 1e-3 && p.c2.abs > 1e-3 then
+        let nx1 := Float.sqrt rho2 - p.a1
+        let s1 := Float.sqrt (nx1 * nx1 + (cz - p.c1) * (cz - p.c1))
+        let lo := (p.c2.abs - kappa).abs
+        let hi := p.c2.abs + kappa
+        if s1 ≥ lo + 1e-4 && s1 ≤ hi - 1e-4 then
+          preds := preds ++ [("C06.reachable_nonempty", !sols.isEmpty, s!"no answer although the arm reaches the wrist centre ({cx}, {cy}, {cz}): |c2|-kappa = {lo} <= {s1} <= {hi}")]
     if five && !hasPara k && axialStack k then
       -- tool point and tool axis exact (C06)
       let badp := sols.find? (fun s => !(posErr pose (forwardC k s) ≤ slackP))
@@ -274,7 +302,7 @@ def opInverse (e : Entry) : RM Res := do
         | .inv => if k.core.p.dof == 5 then 0.0 else q.j6
         | .invc => if k.core.p.dof == 5 then prev.j6 else q.j6
       let compliantQ := match k.constraints with
-        | some c => c.compliant { q with j6 := j6req }
+        | some c => robustCompliant c { q with j6 := j6req }
         | none => true
       let prevOk := !(e == .invc || e == .invc5) || prev.allFinite || prev.j1.isNaN && prev.j6.isFinite
       if nonsing && compliantQ && !hasPara k && pose.allFinite && prevOk && (!five || axialStack k) then
@@ -294,7 +322,7 @@ def opInverse (e : Entry) : RM Res := do
       let realises := posErr pose (forwardC k prev) ≤ 1e-9 && (angErr pose (forwardC k prev)).abs ≤ 1e-9
       let (m5, m3, m1) := thetaMargins p prev
       let byPrevSort := match k.constraints with
-        | some c => c.sortingWeight == 0.0 && c.compliant prev
+        | some c => c.sortingWeight == 0.0 && robustCompliant c prev
         | none => true
       let inRange2 := prev.toList.all (fun x => x.abs ≤ 2.0 * piF)
       if realises && byPrevSort && inRange2 && m3 > 0.2 && m1 > 0.2 then
@@ -317,7 +345,7 @@ def opInverse (e : Entry) : RM Res := do
         let p := k.core.p
         let (m5, m3, m1) := thetaMargins p q
         let byPrevSort := match k.constraints with
-          | some c => c.sortingWeight == 0.0 && c.compliant q
+          | some c => c.sortingWeight == 0.0 && robustCompliant c q
           | none => true
         if byPrevSort && m5 > 0.25 && m3 > 0.25 && m1 > 0.25 &&
             ((prev.j1 - q.j1).abs + (prev.j2 - q.j2).abs + (prev.j3 - q.j3).abs + (prev.j4 - q.j4).abs + (prev.j5 - q.j5).abs + (prev.j6 - q.j6).abs) ≤ 0.1 &&
